@@ -9,7 +9,7 @@
 (* disagreement; "not accepted" (the log is not consumed to its end) can   *)
 (* only mean a malformed log or a specification bug.                       *)
 (***************************************************************************)
-EXTENDS Integers, Sequences, TLC, Json, J_Prims, J_Build, J_Tables, J_C07, J_C15, J_Text, J_C17, J_C20, J_C04, J_C18, J_C06
+EXTENDS Integers, Sequences, TLC, Json, J_Prims, J_Build, J_Tables, J_C07, J_C15, J_Text, J_C17, J_C20, J_C04, J_C18, J_C06, J_C16
 
 CONSTANT TraceFile
 Log == ndJsonDeserialize(TraceFile)
@@ -47,6 +47,8 @@ Judge(e) ==
          [] e.op \in {"ByteSweep", "RandomSweep", "CodeSweep"} -> JSweepOutcome(e)
          [] e.op = "SignedProbe" -> JSignedProbe(e)
          [] e.op = "SignBuild" -> JSignBuild(e)
+         [] e.op = "EncDec" -> JEncDec(e)
+         [] e.op = "Blind" -> JBlind(e)
          [] e.op = "Concurrent" -> JConcurrent(e)
          [] e.op = "ZeroMethods" -> JZero(e)
          [] e.op = "PartialMethods" -> JPartial(e)
